@@ -310,12 +310,15 @@ func genFields(t *rapid.T, refs []string, n int) []pmodel.Field {
 	var fs []pmodel.Field
 	usedN := map[int32]bool{}
 	usedS := map[string]bool{}
-	names := []string{"id", "item", "items", "name", "foo_bar", "fooBar2", "x", "val_1", "Data", "m_k", "zz_top_q"}
+	// the last four names have the 32-bit DJB hash 0 (the open-addressing name map marks an empty slot by hash 0)
+	names := []string{"id", "item", "items", "name", "foo_bar", "fooBar2", "x", "val_1", "Data", "m_k", "zz_top_q", "glidphc", "nb7mbzk", "l5b7iqg", "v4j3vks"}
 	for i := 0; i < n; i++ {
 		var nm, jsonOpt string
 		for {
 			nm = names[rapid.IntRange(0, len(names)-1).Draw(t, "fname")]
-			if rapid.IntRange(0, 3).Draw(t, "suffix") == 0 {
+			if djbZero := len(nm) == 7 && nm != "fooBar2"; djbZero {
+				// keep it as it is
+			} else if rapid.IntRange(0, 3).Draw(t, "suffix") == 0 {
 				nm += fmt.Sprintf("_%d", rapid.IntRange(0, 9).Draw(t, "fsuffix"))
 			}
 			js := jsonNameOf(nm)
@@ -432,7 +435,7 @@ func genSchema(t *rapid.T) pmodel.Schema {
 
 var Prop = pbt.Register(pbt.Prop[Case]{
 	Name: "TestProtoDescriptors",
-	Rule: "generated proto3 files (main package + imported package; nested message declarations; the simple name Item declared in up to five scopes: A.Item, A.Item.Item, B.Item, pkg.Item, other.sub.Item; map fields with equal names in different messages; relative, qualified and fully-qualified type references; recursion; every map key kind; 1..3 services with unary/streaming methods) x ParseServiceMode; the dynamicgo descriptor graph is walked in parallel with protobuf-go's descriptors (built from jhump protoparse output): method set and streaming flags, per reachable message exactly the declared fields (number, name, JSON name, kind, list/map structure, packedness, key kind), message-typed fields must describe the fully-qualified type the schema names; ByNumber over 0..max+2 (field numbers up to 131073), over every declared number shifted by multiples of 2^16 / 2^24 / 2^28 and negated, and ByName/ByJSONName over a key family must find a field iff declared; non-trivial = a simple message name reached under two different full names",
+	Rule: "generated proto3 files (main package + imported package; nested message declarations; field names whose 32-bit DJB hash is 0, also as the only field of a message; the simple name Item declared in up to five scopes: A.Item, A.Item.Item, B.Item, pkg.Item, other.sub.Item; map fields with equal names in different messages; relative, qualified and fully-qualified type references; recursion; every map key kind; 1..3 services with unary/streaming methods) x ParseServiceMode; the dynamicgo descriptor graph is walked in parallel with protobuf-go's descriptors (built from jhump protoparse output): method set and streaming flags, per reachable message exactly the declared fields (number, name, JSON name, kind, list/map structure, packedness, key kind), message-typed fields must describe the fully-qualified type the schema names; ByNumber over 0..max+2 (field numbers up to 131073), over every declared number shifted by multiples of 2^16 / 2^24 / 2^28 and negated, and ByName/ByJSONName over a key family must find a field iff declared; non-trivial = a simple message name reached under two different full names",
 	Gen: func(t *rapid.T) Case {
 		return Case{Schema: genSchema(t), Mode: rapid.IntRange(0, 2).Draw(t, "mode")}
 	},
